@@ -26,11 +26,14 @@ extern void mv_audit_begin(void) __attribute__((weak));
 extern void mv_audit_end(const char * what) __attribute__((weak));
 extern void mv_audit_forget(void * lo, void * hi) __attribute__((weak));
 extern int mv_audit_pause __attribute__((weak));
+extern int mv_fine_pause __attribute__((weak));
 
 extern unsigned long myth_verif_idle_sig(int rank, int * local_nonempty, int * others_nonempty);
 static unsigned long idle_sig(int rank, int * l, int * o) {
   if (&mv_audit_pause) mv_audit_pause++;
+  if (&mv_fine_pause) mv_fine_pause++;
   unsigned long r = myth_verif_idle_sig(rank, l, o);
+  if (&mv_fine_pause) mv_fine_pause--;
   if (&mv_audit_pause) mv_audit_pause--;
   return r;
 }
@@ -480,6 +483,15 @@ void mythv_free(int kind, void * p, size_t sz, int rank) {
   e->state = LG_FREE; e->rank = rank; lg_out[kind]--;
 }
 
+/* which known stack does this stack pointer lie in (fine mode: accesses to the own stack are private) */
+int mv_stack_range_of(const void * sp, uintptr_t * lo, uintptr_t * hi) {
+  for (int i = 0; i < lg_n; i++) {
+    if (LG[i].kind != mythv_k_stack) continue;
+    char * l, * h; lg_range(&LG[i], &l, &h);
+    if ((const char *)sp >= l && (const char *)sp < h) { *lo = (uintptr_t)l; *hi = (uintptr_t)h; return 1; }
+  }
+  return 0;
+}
 long mv_ledger_outstanding(int kind) { return lg_out[kind]; }
 volatile long * mv_ledger_out_ptr(int kind) { return &lg_out[kind]; }
 long mv_ledger_fresh(int kind) { return lg_fresh[kind]; }
